@@ -71,6 +71,38 @@ def run(ctx):
             ctx.notes.append("python3-vt could not load polygon.py: " + p.stderr[-200:])
     except FileNotFoundError:
         ctx.notes.append("python3-vt not available: 3.11 clause not run")
+    # ---- coordinates over ONE large common denominator (stored unchanged): points of an edge at rational parameters and the area are exact
+    from shapepy import JordanCurve as _JC, IntegrateShape as _IS, SimpleShape as _SS
+    for D in (999999937, 10 ** 9, 123456789):
+        for it in range(2 if ctx.quick else 12):
+            while True:
+                nums = [(rng.randint(-3 * D, 3 * D), rng.randint(-3 * D, 3 * D)) for _ in range(3)]
+                a2 = (nums[1][0] - nums[0][0]) * (nums[2][1] - nums[0][1]) - (nums[1][1] - nums[0][1]) * (nums[2][0] - nums[0][0])
+                if a2 > 0:
+                    break
+            vs = [(F(x, D), F(y, D)) for x, y in nums]
+            J = _JC.from_vertices(vs)
+            desc = {"vertices": vs, "denominator": D}
+            ctx.case("common-large-denominator", (D, tuple(nums)))
+            ctx.check([tuple(v) for v in J.vertices] == vs, "coordinates with a denominator <= 10^9 are not stored unchanged", desc)
+            for k, sg in enumerate(J.segments):
+                p0, p1 = vs[k], vs[(k + 1) % 3]
+                for t in (F(1, 2), F(1, 3), F(3, 7)):
+                    exp = (p0[0] + t * (p1[0] - p0[0]), p0[1] + t * (p1[1] - p0[1]))
+                    got = tuple(sg(t))
+                    ctx.check(got == exp and all(core.isfrac(c) for c in got), "point of an edge at a rational parameter is not the exact rational", {**desc, "edge": k, "t": t}, exp, got)
+            ar = _IS.area(_SS(J))
+            ctx.check(core.isfrac(ar) and ar == F(a2, 2 * D * D), "area of a triangle over a common large denominator is not the exact rational", desc, F(a2, 2 * D * D), ar)
+    # ---- the same drawing in microns: crossing PARAMETERS are scale-free exact rationals (no tolerance may decide whether two straight edges cross)
+    for unit in (F(1, 10 ** 6), F(1, 10 ** 7)):
+        for it in range(2 if ctx.quick else 10):
+            (va, vb), _u = impl.scaled_family(ctx, 2, scales=(F(1),), pinv=0.0, crossing=True)
+            sa, sb = [(x * unit, y * unit) for x, y in va], [(x * unit, y * unit) for x, y in vb]
+            got = sorted((a, b, u, v) for a, b, u, v in _JC.from_vertices(sa).intersection(_JC.from_vertices(sb)) if u is not None)
+            exp = sorted((a, b, u, v) for a, b, u, v in _JC.from_vertices(va).intersection(_JC.from_vertices(vb)) if u is not None)
+            ctx.case("micron-crossings", (tuple(va), tuple(vb), unit))
+            ctx.check(len(exp) > 0 and got == exp and all(core.isfrac(x) for t in got for x in t[2:]), "crossing parameters of the same drawing at a tiny unit differ from those at unit 1 (they are scale-free exact rationals)",
+                      {"A": va, "B": vb, "unit": unit}, exp, got)
     # ---- deterministic corpus: finding K5 (derived quantities are not exact once two coordinate denominators multiply beyond 10^9)
     from shapepy import Primitive
     k5 = [(F(1, 99991), F(0)), (F(1), F(1, 99989)), (F(1, 7), F(99990, 99991))]
